@@ -170,18 +170,26 @@ type poolItem struct {
 	hb *int32
 }
 
+// poolCap bounds the simulated pool: fixed arrays, because growing a slice
+// calls runtime.growslice, which the race detector annotates itself (even in
+// norace callers) and which would produce harness-only reports.
+const poolCap = 64
+
 type Pool struct {
 	New func() interface{}
 
-	items      []poolItem
-	victims    []poolItem
+	items      [poolCap]poolItem
+	n          int
+	victims    [poolCap]poolItem
+	vn         int
 	registered bool
 }
 
 var (
 	poolPolicy   int
 	poolRng      uint64 = 88172645463325252
-	allPools     []*Pool
+	allPools     [256]*Pool
+	nPools       int
 	poolGets     uint64
 	poolHits     uint64
 	poolPutCount uint64
@@ -211,62 +219,71 @@ func poolRand() uint64 {
 //
 //go:norace
 func PoolsGC() {
-	for _, p := range allPools {
+	for i := 0; i < nPools; i++ {
+		p := allPools[i]
 		p.victims = p.items
-		p.items = nil
+		p.vn = p.n
+		p.n = 0
+	}
+}
+
+//go:norace
+func (p *Pool) register() {
+	if !p.registered {
+		p.registered = true
+		if nPools < len(allPools) {
+			allPools[nPools] = p
+			nPools++
+		}
 	}
 }
 
 //go:norace
 func (p *Pool) take() (poolItem, bool) {
-	if !p.registered {
-		p.registered = true
-		allPools = append(allPools, p)
-	}
+	p.register()
 	poolGets++
 	if poolPolicy == PoolMiss {
 		return poolItem{}, false
 	}
-	if len(p.items) == 0 && len(p.victims) != 0 {
-		p.items, p.victims = p.victims, nil
+	if p.n == 0 && p.vn != 0 {
+		p.items = p.victims
+		p.n = p.vn
+		p.vn = 0
 	}
-	n := len(p.items)
+	n := p.n
 	if n == 0 {
 		return poolItem{}, false
 	}
-	var it poolItem
+	k := n - 1
 	switch poolPolicy {
 	case PoolFIFO:
-		it = p.items[0]
-		p.items = append(p.items[:0:0], p.items[1:]...)
+		k = 0
 	case PoolRandom:
 		r := poolRand()
 		if r&1 == 0 {
 			return poolItem{}, false
 		}
-		k := int((r >> 1) % uint64(n))
-		it = p.items[k]
-		rest := append(p.items[:0:0], p.items[:k]...)
-		p.items = append(rest, p.items[k+1:]...)
-	default:
-		it = p.items[n-1]
-		p.items = p.items[:n-1]
+		k = int((r >> 1) % uint64(n))
 	}
+	it := p.items[k]
+	for i := k; i < n-1; i++ {
+		p.items[i] = p.items[i+1]
+	}
+	p.items[n-1] = poolItem{}
+	p.n = n - 1
 	poolHits++
 	return it, true
 }
 
 //go:norace
 func (p *Pool) push(it poolItem) {
-	if !p.registered {
-		p.registered = true
-		allPools = append(allPools, p)
-	}
+	p.register()
 	poolPutCount++
-	if poolPolicy == PoolMiss {
+	if poolPolicy == PoolMiss || p.n >= poolCap {
 		return
 	}
-	p.items = append(p.items, it)
+	p.items[p.n] = it
+	p.n++
 }
 
 func (p *Pool) Get() interface{} {
